@@ -1,0 +1,24 @@
+//! Named schedule points for the external verification harness.
+//!
+//! Compiled only with `--cfg crux_verif`. A schedule point is a no-op unless a controller has been
+//! installed with [`install`]; the harness installs one that parks the calling thread until a
+//! given interleaving allows it to continue. Points are placed only where no lock is held.
+
+use std::sync::{Arc, RwLock};
+
+type Controller = Arc<dyn Fn(&'static str) + Send + Sync>;
+
+static CONTROLLER: RwLock<Option<Controller>> = RwLock::new(None);
+
+/// Install (or remove, with `None`) the controller called at every schedule point.
+pub fn install(controller: Option<Controller>) {
+    *CONTROLLER.write().expect("verif controller poisoned") = controller;
+}
+
+/// A named point in the runtime at which the harness may pause the calling thread.
+pub fn schedule_point(name: &'static str) {
+    let controller = CONTROLLER.read().expect("verif controller poisoned").clone();
+    if let Some(controller) = controller {
+        controller(name);
+    }
+}
